@@ -25,7 +25,9 @@ pub struct ArbDecl {
     pub family: &'static str,
     /// The attribute as written.
     pub text: &'static str,
-    pub run: fn(&[u8]) -> ArbOutcome,
+    /// `rest = true`: call `arbitrary_take_rest` (the entry point used for the last consumer of the
+    /// input, e.g. by `fuzz_target!`) instead of `arbitrary`.
+    pub run: fn(&[u8], bool) -> ArbOutcome,
     /// Classify an inner value printed with `{:?}` relative to the declared bounds
     /// (used only to compute cause signatures of violations).
     pub classify: fn(&str) -> &'static str,
@@ -106,11 +108,12 @@ macro_rules! catalogue {
                         name: stringify!($name),
                         family: $family,
                         text: stringify!( $($attr)* ),
-                        run: |bytes: &[u8]| {
+                        run: |bytes: &[u8], rest: bool| {
                             let mut u = Unstructured::new(bytes);
-                            match <$name as Arbitrary>::arbitrary(&mut u) {
+                            let res = if rest { <$name as Arbitrary>::arbitrary_take_rest(Unstructured::new(bytes)) } else { <$name as Arbitrary>::arbitrary(&mut u) };
+                            match res {
                                 Ok(v) => {
-                                    let consumed = bytes.len() - u.len();
+                                    let consumed = if rest { bytes.len() } else { bytes.len() - u.len() };
                                     let inner: $($inner)+ = v.into_inner();
                                     let model: fn(&$($inner)+) -> bool = $model;
                                     let repr = format!("{:?}", inner);
@@ -882,11 +885,12 @@ pub fn registry_generic() -> Vec<ArbDecl> {
         name: "AnyGeneric<(u16,String)>",
         family: "any",
         text: "derive(Debug, Arbitrary)  // struct AnyGeneric<T>(T), T = (u16, String)",
-        run: |bytes: &[u8]| {
+        run: |bytes: &[u8], rest: bool| {
             let mut u = Unstructured::new(bytes);
-            match <AnyGeneric<(u16, String)> as Arbitrary>::arbitrary(&mut u) {
+            let res = if rest { <AnyGeneric<(u16, String)> as Arbitrary>::arbitrary_take_rest(Unstructured::new(bytes)) } else { <AnyGeneric<(u16, String)> as Arbitrary>::arbitrary(&mut u) };
+                            match res {
                 Ok(v) => {
-                    let consumed = bytes.len() - u.len();
+                    let consumed = if rest { bytes.len() } else { bytes.len() - u.len() };
                     let inner = v.into_inner();
                     ArbOutcome::Value {
                         repr: format!("{:?}", inner),
@@ -918,11 +922,12 @@ mod questionable {
             name: "I32ClampThenLe",
             family: "integer",
             text: "sanitize(with = |x: i32| x.clamp(0, 100)), validate(less_or_equal = 100), derive(Debug, Arbitrary)",
-            run: |bytes: &[u8]| {
+            run: |bytes: &[u8], rest: bool| {
                 let mut u = Unstructured::new(bytes);
-                match <I32ClampThenLe as Arbitrary>::arbitrary(&mut u) {
+                let res = if rest { <I32ClampThenLe as Arbitrary>::arbitrary_take_rest(Unstructured::new(bytes)) } else { <I32ClampThenLe as Arbitrary>::arbitrary(&mut u) };
+                            match res {
                     Ok(v) => {
-                        let consumed = bytes.len() - u.len();
+                        let consumed = if rest { bytes.len() } else { bytes.len() - u.len() };
                         let inner: i32 = v.into_inner();
                         let repr = format!("{:?}", inner);
                         ArbOutcome::Value { valid: (0..=100).contains(&inner), class: class_num_str(&repr, Some(0.0), Some(100.0)), repr, consumed }
@@ -935,11 +940,12 @@ mod questionable {
             name: "I32AbsThenLe",
             family: "integer",
             text: "sanitize(with = |x: i32| x.wrapping_abs()), validate(less_or_equal = 100), derive(Debug, Arbitrary)",
-            run: |bytes: &[u8]| {
+            run: |bytes: &[u8], rest: bool| {
                 let mut u = Unstructured::new(bytes);
-                match <I32AbsThenLe as Arbitrary>::arbitrary(&mut u) {
+                let res = if rest { <I32AbsThenLe as Arbitrary>::arbitrary_take_rest(Unstructured::new(bytes)) } else { <I32AbsThenLe as Arbitrary>::arbitrary(&mut u) };
+                            match res {
                     Ok(v) => {
-                        let consumed = bytes.len() - u.len();
+                        let consumed = if rest { bytes.len() } else { bytes.len() - u.len() };
                         let inner: i32 = v.into_inner();
                         let repr = format!("{:?}", inner);
                         ArbOutcome::Value { valid: inner <= 100, class: class_num_str(&repr, None, Some(100.0)), repr, consumed }
